@@ -33,8 +33,8 @@ def run(ctx):
             rep.add_failure("cond.parse", line, impl[0], model[0], "replayed disagreement")
         rep.evaluations += 1
         return
-    n = 1500 if tier == "quick" else 40000
-    g, cases, consts_hex, valid = condlib.make_cases(rng.fork("cases"), n)
+    n = 1200 if tier == "quick" else 40000
+    g, cases, consts_hex, valid = condlib.make_cases(rng.fork("cases"), n, matrix=True)
     lines = [c["line"] for c in cases]
     impl, model = condlib.run_both(lines, ctx["have_model"])
     condlib.stream_stats(rep, "cond.parse", cases, impl)
